@@ -147,10 +147,21 @@ pub fn workload(rng: &mut Rng, flavor: Flavor, max_len: usize) -> Workload {
     } else {
         None
     };
-    while wl.bytes.len() < target_len && wl.toks.len() < 40_000usize.max(target_len / 4) {
+    // very large workloads are made of long printable stretches, not of more tokens: their number
+    // of runs, sequences and client calls stays that of a ~40 KB workload, so that an implementation
+    // that does work proportional to the rest of the buffer on every call (legitimate, if slow)
+    // still finishes in time
+    let inflate = if sw.target_len > 100_000 { (sw.target_len + 39_999) / 40_000 } else { 1 };
+    while wl.bytes.len() < target_len && wl.toks.len() < 40_000 {
         let kind = ALL_KINDS[rng.weighted(&sw.weights)];
         let start = wl.bytes.len();
         token(rng, kind, flavor, &mut wl.bytes);
+        if inflate > 1 && kind == Kind::Ascii {
+            let piece = wl.bytes[start..].to_vec();
+            for _ in 1..inflate {
+                wl.bytes.extend_from_slice(&piece);
+            }
+        }
         if let Some(a) = &alphabet {
             match kind {
                 Kind::Ascii => {
